@@ -302,6 +302,21 @@ class C05:
         return [[list(s) for s in res.outputs], [[float(x) for x in row] for row in arr], float(res.performance), er]
 
     def _quick(self, circ, q, pc, psel):
+        if psel is not None and "rules" in psel and len(psel["rules"]) >= 1 and (len(psel["rules"]) + len(q) + int(pc)) % 2 == 0:
+            # history: the sampler is first read with all rules but the last, the last rule is then added IN PLACE
+            # to the attached PostSelection object - the distribution must be the conditioned Sampler
+            # distribution for the rules the object has NOW
+            p = lw.PostSelection(multi_rules=True)
+            for ms, ns in psel["rules"][:-1]:
+                p.add(tuple(ms), tuple(ns))
+            qs = emulator.QuickSampler(circ, lw.State(list(q)), photon_counting=pc, post_select=p)
+            try:
+                qs.probability_distribution  # noqa: B018
+            except Exception:  # noqa: BLE001   (the outcome of the first read is not what this case observes)
+                pass
+            ms, ns = psel["rules"][-1]
+            p.add(tuple(ms), tuple(ns))
+            return [[list(k), float(v)] for k, v in qs.probability_distribution.items()]
         qs = emulator.QuickSampler(circ, lw.State(list(q)), photon_counting=pc, post_select=mk_psel(psel))
         return [[list(k), float(v)] for k, v in qs.probability_distribution.items()]
 
